@@ -79,8 +79,9 @@ public:
     /// @brief include range of code points to set
     /// @param[in] from,to range of code points to include
     constexpr void include(uint8_t from, uint8_t to) {
-        for (auto c = from; c <= to; ++c)
-            include(c);
+        // the counter must be wider than uint8_t: with to == 0xFF a uint8_t counter never exceeds to
+        for (unsigned c = from; c <= to; ++c)
+            include(static_cast<uint8_t>(c));
     }
 #endif
 
